@@ -21,6 +21,13 @@ Theorem C18_limiter_refines_spec : forall cfg arr,
 Proof. exact limiter_refines_spec. Qed.
 Print Assumptions C18_limiter_refines_spec.
 
+(* RateLimiter.cleanup (run whenever a client disconnects) keeps the refinement: it only forgets what no
+   rule governing a per-address deque can count any more *)
+Theorem C18_cleanup_refines : forall cfg s sp last now,
+  SRel cfg last s sp -> last <= now -> buckets_ok s -> SRel cfg now (cleanup cfg now s) sp.
+Proof. exact cleanup_refines. Qed.
+Print Assumptions C18_cleanup_refines.
+
 (* never more than n let through in any window of the rule's length *)
 Theorem C18_window : forall rules log t,
   LogOK rules log -> Forall (fun a => a <= t) log -> LogOK rules (snd (spec_step rules log t)).
